@@ -173,6 +173,17 @@ func runC13(c *CaseCtx) (res CaseResult) {
 		s.AllowDup = true
 		res.obs("cases_with_same_typed_converters", 1)
 	}
+	if c.Idx%6 == 1 {
+		// a supplied converter WITHOUT output values (a validator: func(T)
+		// error or func(T)): never of use, still one of the supplied
+		// converters the error lists
+		v := FuncSpec{In: []Label{{Type: c.Idx % 4}}, InForm: FormPos, OutForm: FormPos, HasErr: c.Idx%12 == 1, Deliver: DelFunc}
+		if c.Idx%18 == 1 {
+			v.Deliver = DelRaw
+		}
+		s.Convs = append(s.Convs, v)
+		res.obs("cases_with_a_converter_without_outputs", 1)
+	}
 	res.Key = s.Key()
 	res.NonTrivial = len(s.Target.In) >= 2 || len(s.Convs) > 0
 
@@ -212,6 +223,8 @@ func runC13(c *CaseCtx) (res CaseResult) {
 	}
 	outs, _ := runScenarioX(c, s, r, reps, &res, func(in *Inst) {
 		in.ZeroInput1 = zero + 1
+		// one case in five hands the inputs over as ValueSet.Args()
+		in.ViaSet = c.Idx%5 == 2
 		if onceTarget {
 			args := append([]am.Arg{}, in.ConvArgs...)
 			for i, p := range s.Target.In {
@@ -684,6 +697,12 @@ func runC06Malformed(c *CaseCtx, r *rand.Rand) (res CaseResult) {
 				res.Evals++
 				if err == nil || f != nil {
 					res.violate("C14", "nonfunc-accepted", fmt.Sprintf("NewFunc(%T) did not return an error", x), nil)
+				}
+				// the same value inside a list of otherwise good functions
+				fl, err := am.NewFuncList([]interface{}{func(a T0) T1 { return T1{ID: a.ID} }, x})
+				res.Evals++
+				if err == nil || fl != nil {
+					res.violate("C14", "nonfunc-accepted", fmt.Sprintf("NewFuncList with a %T element did not return an error", x), nil)
 				}
 			}()
 		}
